@@ -529,6 +529,7 @@ type Macro struct {
 	Params []string
 	Text   string
 	Expr   SExpr
+	PkgPath string // defining package: names inside the macro body resolve there
 }
 
 var clauseKw = map[string]bool{"requires": true, "ensures": true, "modifies": true, "loop": true, "panics_if": true,
@@ -718,7 +719,7 @@ func parseSpecFile(path, text, pkg string, trusted bool) (*SpecFile, error) {
 			if k2 == "hint" {
 				cur.Hints = append(cur.Hints, &Clause{Kind: "hint", Label: label, Text: body, Expr: e, Loop: n, Line: loc})
 			} else {
-				cur.Invs = append(cur.Invs, &Clause{Kind: "invariant", Label: label, Text: body, Expr: e, Loop: n, Line: loc})
+				cur.Invs = append(cur.Invs, &Clause{Kind: "invariant", Label: label, Text: body, Expr: e, Loop: n, Line: loc, Props: cprops})
 			}
 		case "spec":
 			// spec name(a T, b U) R
